@@ -82,8 +82,8 @@ theorem steps_of_straight {μ : Type} {M : Sem μ} {cfg : Cfg} :
 /-- **The C07 hypothesis**: every expansion the pass can emit for a gate `g` acts on the memory
 (which includes the quantum state, up to global phase) as `g` itself does, provided the pass's
 knowledge `rv` of the operand registers is what they hold and `used` contains the gate's own operand
-registers (as it does when the pass reaches the gate), and it changes no register other than
-the one `get_unused_register` would hand out. -/
+registers (as it does when the pass reaches the gate), and it changes no register at all — except, for a
+two-qubit gate, the one `get_unused_register` would hand out. -/
 def ExpandSound {μ : Type} (M : Sem μ) (cfg : Cfg) : Prop :=
   ∀ (g : Instr) (info : ClsInfo) (rv : List (Reg × Int)) (used : List Reg) (ex : List Instr)
     (s u s' : St μ),
@@ -96,7 +96,7 @@ def ExpandSound {μ : Type} (M : Sem μ) (cfg : Cfg) : Prop :=
     s.mem = u.mem → (∀ r ∈ topRegs g, s.regs r = u.regs r) →
     M.exec g s = some s' →
     ∃ u', RunStraight M (serialise ex) u u' ∧ s'.mem = u'.mem ∧
-      ∀ r, (∀ s0, getUnused used = .ok s0 → r ≠ s0) → u'.regs r = u.regs r
+      ∀ r, (info.gate2 = true → ∀ s0, getUnused used = .ok s0 → r ≠ s0) → u'.regs r = u.regs r
 
 /-! ### windows: what is known about a register at a program point -/
 
@@ -140,9 +140,9 @@ theorem K_target {cfg : Cfg} {S : List Instr} {t : Int} (ht : t ∈ targets cfg 
     have hc : (targets cfg S).contains t = true := List.contains_iff_mem.2 ht
     rw [hc]; rfl
 
-theorem qstaticFrom_at {cfg : Cfg} {tg : List Int} : ∀ (post pre : List Instr),
-    qstaticFrom cfg tg pre post = true → ∀ k x, post[k]? = some x →
-    qstaticAt cfg tg ((post.take k).reverse ++ pre) x = true := by
+theorem qstaticFrom_at {cfg : Cfg} {tg : List Int} {sc : List Reg} : ∀ (post pre : List Instr),
+    qstaticFrom cfg tg sc pre post = true → ∀ k x, post[k]? = some x →
+    qstaticAt cfg tg sc ((post.take k).reverse ++ pre) x = true := by
   intro post
   induction post with
   | nil => intro pre _ k x hx; simp at hx
@@ -158,7 +158,7 @@ theorem qstaticFrom_at {cfg : Cfg} {tg : List Int} : ∀ (post pre : List Instr)
       simpa [List.take_succ_cons, List.reverse_cons, List.append_assoc] using this
 
 theorem qstatic_at {cfg : Cfg} {S : List Instr} (h : QStatic cfg S = true) {p : Nat} {x : Instr}
-    (hx : S[p]? = some x) : qstaticAt cfg (targets cfg S) (S.take p).reverse x = true := by
+    (hx : S[p]? = some x) : qstaticAt cfg (targets cfg S) (scratchRegs cfg S) (S.take p).reverse x = true := by
   have := qstaticFrom_at S [] h p x hx
   simpa using this
 
